@@ -3,6 +3,17 @@
 // case = one algorithm (component) x one generated input x one thread count on the process' (virtual)
 // topology. See c16_common.h for the monitors and ref/c16_ref.h for the oracles.
 #define VERIF_MAIN_TU
+#if defined(__SANITIZE_THREAD__)
+// verif.h declares these inside namespace verif but uses them unqualified from the global __tsan_on_report;
+// the same C-linkage entities declared at global scope make that lookup succeed (no behaviour change).
+extern "C" {
+int __tsan_get_report_data(void* report, const char** description, int* count, int* stack_count, int* mop_count,
+                           int* loc_count, int* mutex_count, int* thread_count, int* unique_tid_count,
+                           void** sleep_trace, unsigned long trace_size);
+int __tsan_get_report_mop(void* report, unsigned long idx, int* tid, void** addr, int* size, int* write, int* atomic,
+                          void** trace, unsigned long trace_size);
+}
+#endif
 #include "c16_common.h"
 
 #include <cmath>
@@ -251,12 +262,16 @@ int main(int argc, char** argv) {
   long onlyComp    = H.paramInt("comp", -1);
   size_t sizeCap   = (size_t)H.paramInt("maxn", VERIF_TSAN ? 30000 : 100000);
   double budgetNs  = (double)H.paramInt("delay_budget_us", H.thorough ? 3000 : 1200) * 1000.0;
-  unsigned wsum    = 0;
-  for (unsigned w : COMP_WEIGHT)
-    wsum += w;
+  uint64_t salt    = (uint64_t)H.paramInt("salt", 0); // different runs of one check explore different cases
+  long boost       = H.paramInt("boost", -1);         // component whose weight is multiplied by 6 in this run
+  unsigned weight[NCOMP], wsum = 0;
+  for (unsigned i = 0; i < NCOMP; ++i) {
+    weight[i] = COMP_WEIGHT[i] * ((long)i == boost ? 6 : 1);
+    wsum += weight[i];
+  }
 
   for (long k = H.firstCase(); k < H.endCase(); ++k) {
-    Rng rng(H.caseSeed(k));
+    Rng rng(salt ? verif::mix(H.caseSeed(k), salt) : H.caseSeed(k));
     CaseCfg c;
     c.maxT     = maxT;
     c.sockets  = sockets;
@@ -265,8 +280,8 @@ int main(int argc, char** argv) {
       c.comp = (unsigned)onlyComp % NCOMP;
     else {
       unsigned w = (unsigned)rng.below(wsum);
-      for (c.comp = 0; w >= COMP_WEIGHT[c.comp]; ++c.comp)
-        w -= COMP_WEIGHT[c.comp];
+      for (c.comp = 0; w >= weight[c.comp]; ++c.comp)
+        w -= weight[c.comp];
     }
     switch (rng.below(8)) {
     case 0: c.threads = 1; break;
@@ -296,8 +311,12 @@ int main(int argc, char** argv) {
     c.n = pick_size(rng, c.comp, c.iter == IT_LIST ? std::min<size_t>(sizeCap, 20000) : sizeCap);
     // partial_sum splits into `threads` blocks of ceil(n/threads): empty trailing blocks exist only when
     // (threads-1)*ceil(n/threads) >= n, i.e. (given the n >= 1024 cut-off) with more than 32 threads and small n
-    if (c.comp == PARTIAL_SUM && c.threads > 32 && rng.below(2))
-      c.n = std::min(sizeCap, (size_t)rng.range(1024, (int64_t)c.threads * (c.threads - 1)));
+    if (c.comp == PARTIAL_SUM && c.threads > 32 && rng.below(2)) {
+      int64_t T = c.threads, q = rng.range((1024 + T - 1) / T, T - 1); // q = block size
+      int64_t lo = std::max<int64_t>(1024, (q - 1) * T + 1), hi = q * (T - 1);
+      if (lo <= hi)
+        c.n = std::min(sizeCap, (size_t)rng.range(lo, hi));
+    }
     c.keyPat    = (unsigned)rng.below(NKEYPAT);
     // One dominating key makes ParallelSTL::sort quadratic (the pivot is the minimum of the remaining range
     // again and again and only a short leading run is stripped per O(n) pass: 1.2e10 comparisons for n = 1e5
@@ -412,6 +431,11 @@ int main(int argc, char** argv) {
         .kv("oracle_violations", o.violations.size());
     for (auto& kv : o.obs)
       obs.kv(kv.first.c_str(), kv.second);
+#if VERIF_TSAN
+    // informational: C16 decides values only; Galois-internal races (e.g. the parallel_break flag) are expected
+    obs.kv("tsan_internal_reports", verif::g_tsanInternalReports.exchange(0))
+        .kv("tsan_reports_on_input_data", verif::g_tsanPayloadReports.exchange(0));
+#endif
     H.end(k, sig, parallelPath, obs.str());
   }
   return 0;
